@@ -23,6 +23,7 @@ type serverProc struct {
 	cmd  *exec.Cmd
 	url  string
 	logb *bytes.Buffer
+	done chan struct{} // closed when the child has exited
 }
 
 func runServe(args []string) int {
@@ -50,6 +51,8 @@ func startServer(base string) (*serverProc, error) {
 		if err := c.Start(); err != nil {
 			return nil, err
 		}
+		done := make(chan struct{})
+		go func() { c.Wait(); close(done) }()
 		ok := false
 		for i := 0; i < 200; i++ {
 			conn, err := net.DialTimeout("tcp", addr, 100*time.Millisecond)
@@ -61,10 +64,18 @@ func startServer(base string) (*serverProc, error) {
 			time.Sleep(10 * time.Millisecond)
 		}
 		if ok {
-			return &serverProc{cmd: c, url: "http://" + addr, logb: lb}, nil
+			// The port was chosen by listening and closing: another harness process may have taken it in between, in which
+			// case the connection above reached ITS server (same relative file names, other contents) and our child has
+			// already exited with "address already in use". Only a child that is still running is our server.
+			select {
+			case <-done:
+				continue
+			case <-time.After(300 * time.Millisecond):
+				return &serverProc{cmd: c, url: "http://" + addr, logb: lb, done: done}, nil
+			}
 		}
 		c.Process.Kill()
-		c.Wait()
+		<-done
 	}
 	return nil, fmt.Errorf("server did not come up")
 }
@@ -72,13 +83,22 @@ func startServer(base string) (*serverProc, error) {
 func (s *serverProc) stop() {
 	if s != nil && s.cmd != nil && s.cmd.Process != nil {
 		s.cmd.Process.Kill()
-		s.cmd.Wait()
+		if s.done != nil {
+			<-s.done
+		}
 	}
 }
 
 func (s *serverProc) alive() bool {
 	if s == nil {
 		return false
+	}
+	if s.done != nil {
+		select {
+		case <-s.done:
+			return false // our child is gone: whoever answers on that port is not our server
+		default:
+		}
 	}
 	conn, err := net.DialTimeout("tcp", strings.TrimPrefix(s.url, "http://"), 200*time.Millisecond)
 	if err != nil {
